@@ -9,6 +9,7 @@ ENGINES = {
     "p_sem": "rapidcheck tape-decoded typed program generator vs reference interpreter (final state, stepping trace, frame accounting, value range)",
     "p_accept": "rapidcheck-generated sources + token-level mutants + exhaustive single-token edits vs reference acceptor",
     "p_code": "rapidcheck-generated programs vs static bytecode verifier / table-inverse invariants with dynamic cross-checks",
+    "p_total": "rapidcheck-generated file maps (neighbours, soup, bytes, truncated constructs, broken maps) + exhaustive single-token edits; sanitizers + result-shape invariant",
     "p_scan": "rapidcheck tape generator + exhaustive enumerators vs reference lexer / include resolver",
 }
 
@@ -217,6 +218,31 @@ PROPS["C08"] = dict(
     technique="property-based testing: rapidcheck-generated free-layout multi-file programs; table-inverse / site / real-line invariants + stepping-vs-enable corollary",
     level_text="Exploration: table invariants on tens of thousands of generated free-layout, file-split programs.",
     level_note="trusted: reference lexer for token lines; generator",
+)
+
+
+PROPS["C02"] = dict(
+    harness="p_total",
+    phases=dict(quick=[enum(8), rc(8, 2500)], thorough=[enum(16), rc(16, 80000)]),
+    rule=("cases: arbitrary file maps and main names: 1-4-edit token neighbours (incl. DEFINE/include tokens) of generated programs with "
+          "macros and several files, token soup, raw bytes, the named truncated constructs (argument list ending in a comma, header "
+          "without ports, DEFINE cut off, stray $n/#n/template tokens, out-of-range numbers) alone or embedded in soup, broken file maps "
+          "(absent main, empty file, empty map, self/mutual includes), random macro definitions followed by soup; plus every single-token "
+          "deletion / adjacent swap / truncation / insertion of 3 fixed valid programs with macros and an include. Oracle: compile returns "
+          "(ASan, UBSan, _GLIBCXX_ASSERTIONS, hang guard; LeakSanitizer recoverable check every 128 cases and at exit), "
+          "generated_correctly <=> errors.empty(), an incorrect result has >=1 error with non-empty message and a location naming a "
+          "supplied file / __standards__ / '-' with a line inside that file, emitted code size <= 64+12*(spliced token count + 1024*max "
+          "macro body). Non-trivial: rejected input with >=3 tokens, or input containing a macro definition; distinct by content hash."),
+    exhaustive_note=dict(quick="all single-token deletions, adjacent swaps, truncations and a third of the 80-token insertions at every position of 3 base programs",
+                         thorough="all single-token deletions, adjacent swaps, truncations and insertions of each of 80 vocabulary tokens at every position of 3 base programs"),
+    min_nontrivial=dict(quick=5000, thorough=80000),
+    assumptions=["inputs are below 8 KiB / 1500 tokens: recursion depth proportional to token count (finding F9) is probed separately",
+                 "'bounded work' is checked by the output-size counter and the hang guard, not by timing",
+                 "the stronger 'every error is well located' is measured (class all-errors-located) but not asserted"],
+    technique="fuzzing / property-based testing: rapidcheck-generated hostile file maps + exhaustive single-token edits under ASan/UBSan/LSan with a result-shape invariant",
+    level_text=("Exploration: hostile and mutated inputs of many shapes are compiled under sanitizers; the result shape stated by the property is "
+                "asserted on every case. Single-token edits of three fixed programs are enumerated completely."),
+    level_note="trusted: sanitizer runtimes; reference lexer for token counts and line counts",
 )
 
 
